@@ -306,13 +306,14 @@ class AstChecks:
         vs = []
         vs += O.check_C02(inv, er, erased)
         vs += O.check_C03(er, res['cfgspec'].terms)
-        vs += O.check_C15_C12(outv, to_view(res['H'].status(), I.P.defs), O.count_hooks(outv))
+        vs += O.check_C15_C12(outv, to_view(res['H'].status(), I.P.defs), O.count_hooks(outv), inv)
         vs += O.check_C15_debug(er, to_view(res['H'].status(), I.P.defs), outv)
         vs += O.check_C05_names(er, res['cfgspec'].terms)
         vs += O.check_C06_block(outv, er) if isinstance(outv, dict) and outv.get('_t') == 'BlockStmt' else []
+        vs += O.check_C06_program(outv, res['cfgspec'].prefix)
         vs += O.check_C06_collision(inv, outv, to_view(res['H'].status(), I.P.defs), res['cfgspec'].prefix)
         vs += O.check_C04(inv, outv, er, erased, res['cfgspec'].terms)
-        vs += O.check_C01(inv, outv)
+        vs += O.check_C01(inv, outv, res['cfgspec'].terms)
         vs += O.check_C09_spans(inv, outv, er)
         return vs, 9 + len(er.hooks)
 
@@ -459,7 +460,7 @@ class ProgramScenario(AstChecksBase):
         vs = []
         vs += O.check_C02_program(inv, er, erased)
         vs += O.check_C03(er, res['cfgspec'].terms)
-        vs += O.check_C15_C12(outv, to_view(res['H'].status(), I.P.defs), O.count_hooks(outv))
+        vs += O.check_C15_C12(outv, to_view(res['H'].status(), I.P.defs), O.count_hooks(outv), inv)
         vs += O.check_C15_debug(er, to_view(res['H'].status(), I.P.defs), outv)
         if self.prologue:
             vs += O.check_C12_program(inv, outv, to_view(res['H'].status(), I.P.defs))
